@@ -925,3 +925,47 @@ pub fn block_on<F: std::future::Future>(f: F) -> F::Output {
         .expect("runtime")
         .block_on(f)
 }
+
+/// Wrap a check so that shrinking a failing case costs at most `budget` real
+/// evaluations (for checks whose cases cost ~1 s, where proptest's own limits
+/// of 2000 iterations / 240 s are far too generous).  Before the first
+/// non-known failure every case is evaluated.  Afterwards (= while proptest
+/// shrinks) the first `budget` candidates are evaluated for real; later
+/// candidates are answered "passes" without running, except the last really
+/// failing case, which is answered from the cache so that `drive`'s final
+/// re-run of the minimal value sees its failure.
+pub fn with_shrink_budget<'a, T, F>(
+    shard: &'a Shard,
+    budget: u32,
+    mut check: F,
+) -> impl FnMut(&T) -> (CaseInfo, CheckResult) + 'a
+where
+    T: Serialize,
+    F: FnMut(&T) -> (CaseInfo, CheckResult) + 'a,
+{
+    let mut failed = false;
+    let mut spent = 0u32;
+    let mut last: Option<(u64, Failure)> = None;
+    move |case: &T| {
+        let h = hash_json(&serde_json::to_value(case).unwrap_or(Value::Null));
+        if failed {
+            if let Some((lh, f)) = &last {
+                if *lh == h {
+                    return (CaseInfo::default(), Err(f.clone()));
+                }
+            }
+            if spent >= budget {
+                return (CaseInfo::default(), Ok(()));
+            }
+            spent += 1;
+        }
+        let (info, res) = guarded(|| check(case));
+        if let Err(f) = &res {
+            if !shard.is_known(&f.signature) {
+                failed = true;
+                last = Some((h, f.clone()));
+            }
+        }
+        (info, res)
+    }
+}
